@@ -78,10 +78,10 @@ Proof. exact last_four_seconds. Qed.
 Print Assumptions C06_last_four_seconds.
 
 (* whatever read returns contains no caption displayed for less than 0.05 s *)
-Theorem C06_flash_rejected : forall s caps, finish_read s = ROk caps ->
+Theorem C06_finish_read_unfold : forall s caps, finish_read s = ROk caps ->
    caps = fix_last (st_caps s) /\ forall c, In c caps -> is_flash c = false.
 Proof. exact flash_rejected. Qed.
-Print Assumptions C06_flash_rejected.
+Print Assumptions C06_finish_read_unfold.
 
 (* END TO END on the whole reader model, for the closed stage of the pop-on refinement (one load, one row of basic
    characters at any address, codes single or doubled, any well-formed timecodes, any offset): the caption starts at
@@ -305,3 +305,19 @@ Theorem C06_popon_times_mixed : forall d off ms evs,
   = rmap (fun spans => flat_map bspans (combine (ploads_of (mexpand ms)) spans)) (expected_with join_threshold evs).
 Proof. exact popon_times_mixed. Qed.
 Print Assumptions C06_popon_times_mixed.
+
+(* ---- audit (wave 7): the display instants of a writer-style line are the STATEMENT's instants of its EDM / EOC words ---------
+   (step towards C06_read_is_statement_spans for the writer's layout; what is still missing is to carry == of rationals
+   through expected_with / the spans, as C06_read_is_statement_spans does for the old layout) *)
+Theorem C06_spec_instant_shift : forall t n k off, tc_wf t = true -> (0 <= n)%Z -> (0 <= k)%Z -> (tc_total t + n < 10800000)%Z ->
+  (spec_instant (tc_shift t n) k off == spec_instant t (n + k) off)%Q.
+Proof. exact spec_instant_shift. Qed.
+Print Assumptions C06_spec_instant_shift.
+Theorem C06_winline_events_spec : forall d t l off, tc_wf t = true ->
+  (tc_total t + Z.of_nat (length (load_body d l)) + 2 < 10800000)%Z ->
+  exists t1 t2,
+    res_map (pseg_event d off) (wseg_expand (winline d t l)) = Ok [Clear t1; Show t2] /\
+    (t1 == spec_instant t (Z.of_nat (length (load_body d l))) off)%Q /\
+    (t2 == spec_instant t (Z.of_nat (length (emit_load_w d l)) - (if d then 2 else 1)) off)%Q.
+Proof. exact winline_events_spec. Qed.
+Print Assumptions C06_winline_events_spec.
